@@ -6,6 +6,7 @@ open C17Model
 open C17TypedModel
 open C17HistModel
 open C17TieModel
+open C17NaluModel
 open Base
 
 let parse_msg (s : string) : msg =
@@ -226,6 +227,61 @@ let typed (fields : string list) : bool =
     else Printf.printf "OK %s\n" id; true
   | _ -> false
 
+(* ---------------------------------------------------------------- N lines: avc/hevc.ParseSEINalu *)
+let sm_string (m : sei_message) : string =
+  let (tag, body) = (match m with
+      | MTyped (TTimeCode cs) -> ("T136", clocks_string cs)
+      | MTyped (TPicTiming p) -> ("T1", pt_string p)
+      | MTyped (TMdcv m) -> ("T137", mdcv_string m)
+      | MTyped (TCll c) -> ("T144", hex_of_n c.cl_max ^ "," ^ hex_of_n c.cl_avg)
+      | MPass p -> ("P", (match p.ps_kind with
+          | KRegistered -> "reg"
+          | KCea608 (f1, f2) -> "608:" ^ hex_of_bytes f1 ^ ":" ^ hex_of_bytes f2
+          | KUnregistered u -> "unreg:" ^ hex_of_bytes u
+          | KPicTimingHevc -> "pth"))
+      | MRaw (_, _) -> ("R", "-")) in
+  S.concat "~" [tag; body; hex_of_n (sm_type m); hex_of_n (sm_size m); hex_of_bytes (sm_payload m)]
+
+let pres_string (r : pres) : string * string =
+  let l ms = (match ms with [] -> "-" | _ -> S.concat "&" (L.map sm_string ms)) in
+  match r with
+  | POk ms -> ("ok", l ms)
+  | PMissing ms -> ("missing", l ms)
+  | PNotSEI -> ("notsei", "-")
+  | PErr -> ("err", "-")
+  | PPanic -> ("panic", "-")
+  | PFuel -> ("fuel", "-")
+
+let parse_hrd3 (s : string) =
+  if s = "-" then None else
+    match L.map n_of_hex (split_on ',' s) with
+    | [a; b; c] -> Some ((a, b), c)
+    | _ -> failwith ("bad hrd3 " ^ s)
+
+let parse_avc_par (s : string) : avc_par =
+  match split_on ':' s with
+  | ["none"] -> APNone
+  | ["vui"; vcl; nal] -> APVui (parse_hrd3 vcl, parse_hrd3 nal)
+  | _ -> failwith ("bad avc par " ^ s)
+
+let parse_hevc_sps (s : string) : hevc_sps =
+  match split_on ':' s with
+  | ["none"] -> HPNone
+  | ["vui"; ffi; "-"] -> HPVui (bool_of ffi, None)
+  | ["vui"; ffi; h] ->
+    (match split_on ',' h with
+     | [a; b; c; d; e; f; g; i] ->
+       HPVui (bool_of ffi, Some { hh_nal = bool_of a; hh_vcl = bool_of b; hh_subpic = bool_of c; hh_subpic_in_pt = bool_of d;
+                                  hh_au_len1 = n_of_hex e; hh_dpb_len1 = n_of_hex f; hh_du_len1 = n_of_hex g; hh_inc_len1 = n_of_hex i })
+     | _ -> failwith ("bad hevc hrd " ^ h))
+  | _ -> failwith ("bad hevc sps " ^ s)
+
+let nalu_line id cls lst (r : pres) =
+  let (mc, ml) = pres_string r in
+  if mc <> cls then Printf.printf "MISMATCH %s ParseSEINalu class model=%s\n" id mc
+  else if ml <> lst then Printf.printf "MISMATCH %s ParseSEINalu messages model=%s\n" id ml
+  else Printf.printf "OK %s\n" id
+
 let () =
   iter_lines (fun line ->
       let fields = split_on '\t' line in
@@ -242,6 +298,10 @@ let () =
         else if mc <> xclass || ml <> xlist then Printf.printf "MISMATCH %s extract model=%s %s\n" id mc ml
         else if rc <> xclass || rl <> xlist then Printf.printf "MISMATCH %s extract_rbsp model=%s %s\n" id rc rl
         else Printf.printf "OK %s\n" id
+      | ["NA"; id; par; nalu; cls; lst] ->
+        nalu_line id cls lst (parse_sei_nalu_avc (parse_avc_par par) (bytes_of_hex nalu))
+      | ["NH"; id; par; nalu; cls; lst] ->
+        nalu_line id cls lst (parse_sei_nalu_hevc (parse_hevc_sps par) (bytes_of_hex nalu))
       | ["X"; id; datahex; xclass; xlist] ->
         let (mc, ml) = xres_string (extract_sei_data (bytes_of_hex datahex)) in
         if mc <> xclass || ml <> xlist then Printf.printf "MISMATCH %s extract model=%s %s\n" id mc ml
